@@ -661,10 +661,9 @@ fn parse_positional<'a>(
                 update_state_with_new_positional(pos_index)
             }
         }
-        ParseState::Opt(..) => unreachable!(
-            "This branch won't be hit,
-            because ParseState::Opt should not be seen as a positional argument and passed to this function."
-        ),
+        // An option is still waiting for a value: like the real parser, take the
+        // argument as that value even if it looks like a flag a positional would accept.
+        ParseState::Opt((opt, count)) => (parse_opt_value(opt, count), pos_index),
     }
 }
 
